@@ -13,7 +13,7 @@ ASSUMPTIONS = ["reference serialiser vf/ref/sighash.py (self-tested against the 
 NSHARDS = {"quick": 32, "thorough": 64}
 BUDGET_S = {"quick": 200, "thorough": 1800}
 MIN_HITS = {
-    'quick': {"flag_41": 464, "flag_42": 459, "flag_43": 455, "flag_c1": 447, "flag_c2": 438, "flag_c3": 459, "idx>=1": 1402, "nonpalindromic_seq": 2646, "sign": 163, "subscript>=65536": 3, "single_without_output": 302},
+    'quick': {"flag_41": 478, "flag_42": 473, "flag_43": 467, "flag_c1": 455, "flag_c2": 451, "flag_c3": 465, "idx>=1": 1442, "nonpalindromic_seq": 2707, "sign": 163, "subscript>=65536": 3, "single_without_output": 311},
     'thorough': {"flag_41": 688233, "flag_43": 688105, "flag_c3": 688066, "idx>=1": 2125077, "nonpalindromic_seq": 4071680, "sign": 96003, "subscript>=65536": 3},
 }
 
